@@ -275,6 +275,12 @@ func expectBlockArgProcess(
 		return argTs, nil
 	}
 
+	// end of input directly behind the arguments: like a line break
+	if nextT == nil {
+		m.parser.Unget()
+		return argTs, nil
+	}
+
 	if nextT.IsTargetIdentifier("]") {
 		m.parser.Unget()
 		return argTs, nil
